@@ -24,6 +24,8 @@ def run(facts, tier):
         ("emptiness predicate support", lambda fa: predicates.obligations(fa, None), 30, "the emptiness predicate still consults every field it depended on in the reviewed tree (spec/predicates.json)"),
         ("tautologies", lambda fa: generic_lints.tautologies(fa, None), 2, "no comparison / assignment / min-max with two identical operands, no if-else with identical arms"),
         ("duplicate operands", lambda fa: generic_lints.duplicate_conjuncts(fa, None), 2, "no logical chain tests the same operand twice (copy-paste of the wrong peer)"),
+        ("state-writing shortcuts", lambda fa: generic_lints.state_writing_shortcuts(fa, None), 1, "no merge / update branch writes fields and returns early past the steps all other paths run (compaction loop, totals, cached counts); one reviewed exception"),
+        ("post-increment", lambda fa: generic_lints.post_increment_semantics(fa, None), 1, "it++ copies *this, advances once and returns the copy by value"),
         ("release guards", lambda fa: generic_lints.conditional_release_before_overwrite(fa, None), 1, "an owning pointer field that is overwritten had its old object released unconditionally or under the existence test of that very object (any other guard leaks it on the other paths)"),
         ("invalidated pointers", lambda fa: generic_lints.invalidated_pointers(fa, None), 1, "no pointer / iterator obtained from begin() / end() / data() of an object is used after a call on that object that can move its storage (ensure_space, grow, resize ...)"),
         ("moves from lvalue operands", lambda fa: generic_lints.moves_from_lvalue_operands(fa, None), 1, "in the lvalue instantiation of a forwarding-reference operand nothing is std::move-d out of the operand (conditional_forward copies there): a sketch passed to be read keeps its items / summaries"),
